@@ -76,6 +76,21 @@ CHECKS = {
 }
 NOT_YET = {}
 
+# added in later rounds (appended to the level text)
+EXTRA = {
+ "C02": " Asynchronous events: a signal (SIGINT/SIGTERM/SIGHUP/SIGUSR1) raised before EVERY read of a blk file - whatever then carries a final name after an exit 0 must hold exactly the model's output for the range in its name. Partial directories (the file of the blocks below --start missing), the reader's calendar clock behind the chain.",
+ "C04": " The index replaced while the run is in the middle of its blocks (chain grows / tip reorganised / deeper reorganisation), applied by the shim before EVERY blk read in turn: the delivered sequence must stay a chain of blocks that are active before or after. The reader's calendar clock behind the chain's timestamps.",
+ "C07": " Twin-id history explorer: every ordered selection of up to 3 of the 4 outpoints of two transactions whose ids agree in 10 byte regions is spent (410 worlds per callback, real callbacks, ids replaced after parsing). Signals before every blk read (see C02).",
+ "C08": " Twin-id history explorer and signals before every blk read as in C07.",
+ "C09": " Must-pass chains on a pruning node's directory (--verify --start at / above the first stored height).",
+ "C10": " Signals (SIGINT/SIGTERM/SIGHUP/SIGUSR1/SIGQUIT) raised immediately before EVERY intercepted call on the dump folder and before EVERY blk read: exit 0 only with complete output, and a file under a final name of the undisturbed run is never partial. Merged-mined chains (namecoin, dogecoin) cut at EVERY byte.",
+ "C11": " Layouts with blk files that live in another directory and are linked back.",
+ "C03": " Layouts with blk files that live in another directory and are linked back.",
+ "C13": " Directories taking turns at one path (two good ones, two whose index cannot be loaded; all sequences up to depth 3; TMPDIR / HOME / XDG directories persisting): every run must end like the same run on a fresh path. The free-running real-rayon pass (sampling, labelled) includes a block of 24 x 1500 outputs; a run whose threads are all asleep is judged by the watchdog.",
+ "C16": " Runs that fail at a LATER block (4 ways x every height x 3 coins): the lines of the blocks processed before are due.",
+}
+PROFILE_NOTE = " Build profile as a dimension: ./check builds the subject in the dev AND the release profile; one whole-program run in four (chosen by a hash of the case) goes to the release binary, and the in-process sweeps run twice, compiled with and without debug assertions / overflow checks."
+
 def main():
     props = [json.loads(l) for l in open(os.path.join(V, "properties.jsonl"))]
     checks, na = [], []
@@ -90,7 +105,7 @@ def main():
                 "evidence_file": "/verif/evidence/%s.json" % pid,
                 "replay_cmd_template": "./check --replay {path}",
                 "engine": engine,
-                "level_claimed": {"category": level, "text": text, "design_ref": "DESIGN.md §" + ref},
+                "level_claimed": {"category": level, "text": text + EXTRA.get(pid, "") + PROFILE_NOTE, "design_ref": "DESIGN.md §" + ref},
                 "level_note": note,
                 "technique": technique,
             })
@@ -108,7 +123,7 @@ def main():
         },
         "engines": [
             {"name": "e1", "path": "mc/explore", "serves_properties": ["C01","C02","C03","C04","C05","C06","C07","C08","C09","C11","C12","C13","C14","C15","C16","C17"], "kind_free_text": "world explorer: enumerates worlds (chain x layout x index x options), materialises each and runs the real binary; compares with the reference model"},
-            {"name": "e2", "path": "mc/inproc", "serves_properties": ["C05","C06","C11","C14","C15","C16"], "kind_free_text": "in-process explorer over the repository's own modules (include! of /repo/src/main.rs): exhaustive byte-string families and operation sequences"},
+            {"name": "e2", "path": "mc/inproc", "serves_properties": ["C05","C06","C07","C08","C09","C11","C13","C14","C15","C16"], "kind_free_text": "in-process explorer over the repository's own modules (include! of /repo/src/main.rs): exhaustive byte-string families and operation sequences"},
             {"name": "e3a", "path": "faultfs + mc/explore", "serves_properties": ["C10","C17"], "kind_free_text": "LD_PRELOAD interposer enumerating every fault answer / crash point of the output protocol at syscall granularity"},
             {"name": "e3b", "path": "mc/rayon-sched + mc/inproc-sched", "serves_properties": ["C13"], "kind_free_text": "controlled-scheduler stand-in for rayon + stateless DFS over all item-level schedules of the parallel regions"},
         ],
